@@ -61,6 +61,17 @@ func runC03(p *Prog, r *Report) {
 			r.Obs = append(r.Obs, &o2)
 		}
 	}
+	// ... and reading is never throttled by the send-rate limiter (C15.R3 re-evaluated): frames still
+	// queued in the socket when the scan ends yield no record
+	sub15 := NewReport("C03", "quick")
+	runC15(p, sub15)
+	for _, o := range sub15.Obs {
+		if o.Rule == "C15.R3" {
+			o2 := *o
+			o2.Rule = "C03.R9"
+			r.Obs = append(r.Obs, &o2)
+		}
+	}
 }
 
 // packetConfigCtor finds the variadic-options constructor of the struct holding bpfFilter.
